@@ -21,8 +21,8 @@ import (
 )
 
 type pkSc struct {
-	Lk        lkSc   `json:"lookup"`      // KeyKind 3; peers' Val: 0 none, 1 the target's key, 2 another peer's (valid) key, -2 filed under another key, -4 garbage
-	TargetAns string `json:"target_ans"`  // what the node itself answers: own | foreign | garbage | none | otherkey | fail | silent
+	Lk        lkSc   `json:"lookup"`     // KeyKind 3; peers' Val: 0 none, 1 the target's key, 2 another peer's (valid) key, -2 filed under another key, -4 garbage
+	TargetAns string `json:"target_ans"` // what the node itself answers: own | foreign | garbage | none | otherkey | fail | silent
 	TargetLat int    `json:"target_lat_ms"`
 	CancelMs  int    `json:"cancel_ms,omitempty"`
 }
